@@ -168,6 +168,8 @@ func c05(c *core.Ctx) {
 		}
 	}
 
+	lockKeptUntilInstalled(c, "C05.R1")
+
 	// ---- R2 writers
 	u, d := mapWriters(c, "server.server.clients")
 	checkInventory(c, "C05.R2", "writers-of srv.clients (update)", u, "registerClient", "defaultServer(assign)")
@@ -519,4 +521,37 @@ func offlineDeadlineBase(c *core.Ctx, rule string) {
 		})
 	}
 	c.Check(n >= 2, rule, "offlineClients|deadline-sites", "-", "deadline recorded at disconnect and at start-up", "the offline deadline is no longer recorded both at disconnect and when stored sessions are loaded")
+}
+
+// lockKeptUntilInstalled: see the comment in the body (shared by C05.R1 and C15.R1).
+func lockKeptUntilInstalled(c *core.Ctx, rule string) {
+	p := c.P
+	// ... and the caller keeps it: in registerClient the server lock that lockDuplicatedID returned with is not
+	// released before the connection is installed (an explicit Unlock between the two lets a second CONNECT with
+	// the same client id conclude "nobody online" as well)
+	{
+		rcf := p.Func("server", "(*server).registerClient")
+		ldf := p.Func("server", "(*server).lockDuplicatedID")
+		for i, cs := range staticCalls(rcf, ldf) {
+			if cs.Fn != rcf {
+				continue
+			}
+			var rel ssa.Instruction
+			for _, ev := range ssax.LockEvents(rcf) {
+				if ev.Acquire || ev.Defer || ev.Class != "server.server.mu" {
+					continue
+				}
+				// an explicit release in registerClient's own body that can follow the call
+				if _, ok := (ssax.PathQuery{Fn: rcf, From: cs.Instr, To: ssax.InstrIs(ev.Instr)}).Find(); ok {
+					rel = ev.Instr
+				}
+			}
+			pos := ipos(c, cs.Instr)
+			if rel != nil {
+				pos = ipos(c, rel)
+			}
+			c.Check(rel == nil, rule, fmt.Sprintf("registerClient|lock-kept-until-installed#%d", i), pos, "the lock taken by lockDuplicatedID is kept until the deferred installation", "registerClient releases the server lock between lockDuplicatedID's observation and the installation of the connection (e.g. to run a hook unlocked): a second CONNECT with the same client id gets through in between and both connections own the session")
+		}
+	}
+
 }
